@@ -315,6 +315,7 @@ def run_to_completion(state: State, external_event: Union[dict, Event]) -> State
                 heads_matching: List[FlowHead] = []
                 heads_not_matching: List[FlowHead] = []
                 heads_failing: List[FlowHead] = []
+                heads_erroring: List[FlowHead] = []
 
                 # Iterate over all potential head candidates and check if we have an event match
                 for flow_state_uid, head_uid in head_candidates:
@@ -322,9 +323,29 @@ def run_to_completion(state: State, external_event: Union[dict, Event]) -> State
                     head = flow_state.heads[head_uid]
                     element = get_element_from_head(state, head)
                     if element is not None and is_match_op_element(element):
-                        matching_score = _compute_event_matching_score(
-                            state, flow_state, head, event
-                        )
+                        try:
+                            matching_score = _compute_event_matching_score(
+                                state, flow_state, head, event
+                            )
+                        except Exception as e:
+                            # A runtime error while evaluating the match statement
+                            # fails only the flow of this head (see _advance_head_front)
+                            log.warning(
+                                "Flow '%s' failed while matching due to Colang runtime exception: %s",
+                                flow_state.flow_id,
+                                e,
+                                exc_info=True,
+                            )
+                            colang_error_event = Event(
+                                name="ColangError",
+                                arguments={
+                                    "type": str(type(e).__name__),
+                                    "error": str(e),
+                                },
+                            )
+                            _push_internal_event(state, colang_error_event)
+                            heads_erroring.append(head)
+                            continue
 
                         if matching_score > 0.0:
                             # Successful event match
@@ -391,6 +412,10 @@ def run_to_completion(state: State, external_event: Union[dict, Event]) -> State
                     else:
                         flow_state = get_flow_state_from_head(state, head)
                         _abort_flow(state, flow_state, [])
+
+                # Abort all flows with a runtime error in their match statement
+                for head in heads_erroring:
+                    _abort_flow(state, get_flow_state_from_head(state, head), [])
 
                 # Advance front of all matching heads to actionable or match statements
                 for new_head in _advance_head_front(state, heads_matching):
